@@ -34,7 +34,7 @@ func Main(c *run.Ctx) {
 		"each is followed by a well-formed canary push; distinct key = route class × content type × mutation operator × answer class")
 	c.Assume("a request unanswered after 15 s counts as wedged only if two goroutine dumps 2 s apart show the same goroutine of the request in the same qryn frames")
 	c.Assume("database = fake insert client that always succeeds")
-	c.Assume("every second lane runs with GOMAXPROCS 1 or 2, the others with all processors")
+	c.Assume("every second lane runs with GOMAXPROCS 1 or 2, the others with all processors; every fourth lane has db_bulk = 64 KiB (size-triggered flushes)")
 	total := c.Pick(12000, 240000)
 	lanes := c.Pick(8, 14)
 	per := (total + lanes - 1) / lanes
@@ -157,7 +157,12 @@ func Child(c *run.Ctx, name string) {
 		panic(err)
 	}
 	led := chw.NewLedger(nil)
-	w := chw.StartWriter(chw.WriterCfg{DBTimer: 0.002, RetryAttempts: 1, ChannelsSample: 2, ChannelsTimeSeries: 2}, led)
+	wcfg := chw.WriterCfg{DBTimer: 0.002, RetryAttempts: 1, ChannelsSample: 2, ChannelsTimeSeries: 2}
+	if cfg.Lane%4 == 2 {
+		// a size-triggered flush as well (db_bulk): batches are cut by size, and one portion can be larger than the cap
+		wcfg.DBBulk = 64 << 10
+	}
+	w := chw.StartWriter(wcfg, led)
 	sess := chw.NewSession(w)
 	sess.Timeout = 15 * time.Second
 	var canaries []*chw.Item
@@ -243,7 +248,19 @@ func Child(c *run.Ctx, name string) {
 			c.Floor("multi-portion bodies pushed while another client pushes", 0, 1)
 			c.Cover("big body", fmt.Sprintf("%s one-portion-per-stream=%v cut=%v answered %dxx", proto, lo.Huge, cut, br.Status/100), 1)
 			if br.Status == 0 {
-				c.Undecided("multi-portion body unanswered (" + clipS(br.Err, 100) + ")")
+				if stuck := stuckInQryn(); len(stuck) > 0 {
+					top := stuck[0].QrynFrames()[0]
+					raw := ""
+					for _, g := range stuck {
+						raw += g.Raw + "\n\n"
+					}
+					c.Violation("wedged/multi-portion-body/"+top, fmt.Sprintf("no HTTP answer for a well-formed %s push of %d bytes (one stream per portion: %v, cut off: %v) after %v; %d goroutine(s) of the request are blocked in the same qryn frames in two dumps 2 s apart, innermost %s [%s]; writer configuration %+v",
+						proto, len(big.Body), lo.Huge, cut, sess.Timeout, len(stuck), top, stuck[0].State, wcfg),
+						map[string]any{"case_index": gi, "big_body": true, "client_error": br.Err, "goroutines": clipS(raw, 6000)})
+				} else {
+					c.Undecided("multi-portion body unanswered (" + clipS(br.Err, 100) + ")")
+				}
+				os.Exit(exitStall)
 			}
 		}
 		rec := sess.Send(1, &hc.Req)
